@@ -1210,8 +1210,12 @@ def _check_rolling_window_overlap(region, size, shape, spacing):
         ndims = len(shape)
         dimensions = [region[i * ndims + 1] - region[i * ndims] for i in range(ndims)]
         # The - 1 is because we need to divide by the number of intervals, not
-        # the number of nodes.
-        spacing = tuple(dim / (n - 1) for dim, n in zip(dimensions, shape))
+        # the number of nodes. A single window can't cover the region unless
+        # it has the same size as the region.
+        spacing = tuple(
+            dim / (n - 1) if n > 1 else (np.inf if dim > 0 else 0)
+            for dim, n in zip(dimensions, shape)
+        )
     spacing = np.atleast_1d(spacing)
     if np.any(spacing > size):
         warnings.warn(
